@@ -32,7 +32,7 @@ struct Cfg {
     dir_name: String,
 }
 
-const DIR_NAMES: [&str; 13] = ["<latin-1>donn\u{e9}es", "not/yet/there", "fresh volume/sync", "my data", "store#1", "which?", "tasks%41", "d\u{e4}ta-\u{fc}", "a'b\"c", "x;y&z", "semi:colon=eq", "file:name", "trailing."];
+const DIR_NAMES: [&str; 15] = ["<relative>~/tss", "<relative>./state/../state/db", "<latin-1>donn\u{e9}es", "not/yet/there", "fresh volume/sync", "my data", "store#1", "which?", "tasks%41", "d\u{e4}ta-\u{fc}", "a'b\"c", "x;y&z", "semi:colon=eq", "file:name", "trailing."];
 
 impl Cfg {
     fn json(&self) -> Value {
@@ -172,14 +172,25 @@ fn run_cfg(cfg: &Cfg, bin: &std::path::Path, rng: &mut Rng, cov: &mut Cov) -> Re
         }
         None => cfg.dir_name.clone().into(),
     };
+    // a relative path (the server is started in the scratch directory): `~` is an ordinary name there
+    let relative: Option<String> = cfg.dir_name.strip_prefix("<relative>").map(|s| s.to_string());
+    let dir_os: std::ffi::OsString = match &relative {
+        Some(r) => r.clone().into(),
+        None => dir_os,
+    };
     let data = dir.path().join(&dir_os);
-    let (args, env) = cfg.launch(&data);
+    let given: std::path::PathBuf = match &relative {
+        Some(r) => std::path::PathBuf::from(r),
+        None => data.clone(),
+    };
+    let cwd: Option<std::path::PathBuf> = relative.as_ref().map(|_| dir.path().to_path_buf());
+    let (args, env) = cfg.launch(&given);
     let eff = cfg.effective();
     // ---- a configured address that cannot be bound: the server must not come up half-configured
     if let Some(oi) = cfg.occupied {
         let a = cfg.addrs[oi].replace("localhost", "127.0.0.1");
         let Ok(_holder) = std::net::TcpListener::bind(&a) else { return Err("cannot occupy the address".into()) };
-        let mut proc = match Proc::start_os(bin, &args, &env, &[], Duration::from_secs(20)) {
+        let mut proc = match Proc::start_in(bin, &args, &env, &[], Duration::from_secs(20), cwd.as_deref()) {
             Ok(p) => p,
             Err(_) => {
                 cov.hit("unbindable-address:refused-to-start".into());
@@ -203,7 +214,7 @@ fn run_cfg(cfg: &Cfg, bin: &std::path::Path, rng: &mut Rng, cov: &mut Cov) -> Re
         cov.hit("unbindable-address:not-serving".into());
         return Ok(None);
     }
-    let mut proc = match Proc::start_os(bin, &args, &env, &[], Duration::from_secs(20)) {
+    let mut proc = match Proc::start_in(bin, &args, &env, &[], Duration::from_secs(20), cwd.as_deref()) {
         Ok(p) => p,
         Err(e) => {
             if cfg.dir_name != "data" {
@@ -318,7 +329,8 @@ fn run_cfg(cfg: &Cfg, bin: &std::path::Path, rng: &mut Rng, cov: &mut Cov) -> Re
         return Ok(Some(format!("no database file under the configured data directory {}", data.display())));
     }
     // ... and nowhere else: the configured directory is the only entry next to it
-    let siblings: Vec<String> = std::fs::read_dir(dir.path()).map(|r| r.filter_map(|e| e.ok()).map(|e| e.file_name().to_string_lossy().to_string()).filter(|n| *n != cfg.dir_name.split('/').next().unwrap_or("") && *n != dir_os.to_string_lossy()).collect()).unwrap_or_default();
+    let top_component: String = std::path::Path::new(&dir_os).components().find_map(|c| if let std::path::Component::Normal(n) = c { Some(n.to_string_lossy().to_string()) } else { None }).unwrap_or_default();
+    let siblings: Vec<String> = std::fs::read_dir(dir.path()).map(|r| r.filter_map(|e| e.ok()).map(|e| e.file_name().to_string_lossy().to_string()).filter(|n| *n != top_component && *n != dir_os.to_string_lossy()).collect()).unwrap_or_default();
     if !siblings.is_empty() {
         return Ok(Some(format!("the server was given the data directory {:?} but also created {siblings:?} next to it", data.display().to_string())));
     }
@@ -354,8 +366,8 @@ fn run_cfg(cfg: &Cfg, bin: &std::path::Path, rng: &mut Rng, cov: &mut Cov) -> Re
     let mut cfg2 = cfg.clone();
     cfg2.listen_form = (cfg.listen_form + 1) % 3;
     cfg2.data_by_env = !cfg.data_by_env;
-    let (args, env) = cfg2.launch(&data);
-    let mut proc = Proc::start_os(bin, &args, &env, &cfg.addrs, Duration::from_secs(20)).map_err(|e| format!("restart: {e}"))?;
+    let (args, env) = cfg2.launch(&given);
+    let mut proc = Proc::start_in(bin, &args, &env, &cfg.addrs, Duration::from_secs(20), cwd.as_deref()).map_err(|e| format!("restart: {e}"))?;
     cov.hit("kill9-restart".into());
     for (i, r) in reads.iter().enumerate() {
         let (after, _) = call(&pick_addr(rng), client, r);
@@ -386,8 +398,8 @@ fn run_cfg(cfg: &Cfg, bin: &std::path::Path, rng: &mut Rng, cov: &mut Cov) -> Re
             t.set_snapshot(Snapshot { version_id: parent, timestamp: ts, versions_since: 0 }, b"aged".to_vec()).map_err(|e| format!("{e:#}"))?;
             t.commit().map_err(|e| format!("{e:#}"))?;
         }
-        let (args, env) = cfg.launch(&data);
-        let mut proc = Proc::start_os(bin, &args, &env, &cfg.addrs, Duration::from_secs(20)).map_err(|e| format!("restart: {e}"))?;
+        let (args, env) = cfg.launch(&given);
+        let mut proc = Proc::start_in(bin, &args, &env, &cfg.addrs, Duration::from_secs(20), cwd.as_deref()).map_err(|e| format!("restart: {e}"))?;
         let (r, raw) = call(&pick_addr(rng), client, &Req::AddVersion { parent, data: b"after-aging".to_vec() });
         proc.kill9();
         match r {
